@@ -26,6 +26,30 @@ CLAIMED = {
                 text="As C04 with the scan's node_version_vec: after every run the recorded (version, node) pairs are probed at quiescence; TLC requires that a key the scan "
                      "covered and reported absent, absent initially, never removed and put by a call that had not returned when the scan started, leaves a stale pair.",
                 note=CONC_NOTE, tech=CONC_TECH),
+    "C07": dict(cat="model_checking", ref="DESIGN.md 3.7, 6 (C07)",
+                text="TLC checks Safe / SafeStrong / EpochLag / GcBehind of YkEpoch (workers entering and leaving at any point, epoch thread and gc thread one atomic access "
+                     "per step) and judges scheduler-driven executions of the real code in which the library's own epoch_thread() and gc_thread() loops are controlled "
+                     "threads: no reclaim of an object while a session that obtained it, or was open when it was unlinked, is still open; every pointer is re-read before "
+                     "leave. Schedules: random, PCT and a grid of 'stall inside enter' plans.", note="SC only (the relaxed begin-epoch store is treated as immediately visible); "
+                     "model bounds 2 workers / 2 slots / epoch<=3 (quick) .. 5 (thorough)", tech="TLA+ model checking (TLC) of YkEpoch + scheduler-driven executions judged by TLC (TraceEpoch)"),
+    "C11": dict(cat="model_checking", ref="DESIGN.md 6 (C11)",
+                text="Real init()/fin() cycles with operation histories (overwrites, removes that empty nodes, failed unique inserts and failed create_storage, storages "
+                     "created and deleted, cursors closed early, sessions left open at fin) with every form of global operator new/delete interposed: TLC requires that "
+                     "live bytes and blocks after each fin() do not exceed the baseline after an empty cycle; the retire/reclaim ledger of scheduler-driven runs must "
+                     "release each retired object exactly once and nothing else (TraceEpoch ON={C11}).",
+                note="operator new/delete accounting only (tbb queues / glog use malloc directly); losing root-creation races are not driven yet",
+                tech="TLC trace validation of real lifecycle executions (TraceLife) and of the retire/reclaim ledger (TraceEpoch)"),
+    "C14": dict(cat="model_checking", ref="DESIGN.md 3.7, 6 (C14)",
+                text="TLC checks TokenUnique / Capacity / WarnMaxJustified / EpochLag of YkEpoch for capacity 1 and 2; the harness is compiled with "
+                     "YAKUSHIMA_MAX_PARALLEL_SESSIONS = 1, 2, 3 and three threads enter/leave under random and PCT schedules; TLC judges from the slot-word events that an OK "
+                     "enter returns a slot no open session holds, that at most capacity sessions are open, that WARN_MAX_SESSIONS was justified by the slots observed "
+                     "during the call (a lost CAS counts only if somebody took the slot meanwhile), and that the begin epoch is published when enter returns.",
+                note="SC only; 3 threads, capacities 1..3", tech="TLA+ model checking (TLC) of YkEpoch + scheduler-driven executions judged by TLC (TraceEpoch)"),
+    "C16": dict(cat="model_checking", ref="DESIGN.md 3.7, 6 (C16)",
+                text="TLC checks YkLife (init/fin cycles, stop flags, background loops): threads alive while up, epoch advances and retired memory is reclaimed in every "
+                     "cycle under weak fairness; real init()/fin() cycles (with destroy() and sessions left open) are judged by TLC: fresh empty system after each init, all "
+                     "slots free, background threads alive until fin, >= 3 epoch increments and reclaim of the retired objects inside every cycle, fin joins the threads.",
+                note="real-time dependent (epoch period 2 ms, 4 s bound per cycle); 5-9 cycles per run", tech="TLA+ model checking (TLC) of YkLife + TLC trace validation of real lifecycle executions (TraceLife)"),
     "C09": dict(cat="model_checking", ref="DESIGN.md 3.6, 6 (C09)",
                 text="Every scheduler-driven run of the concurrent drivers must complete under a fair continuation: the scheduler parks threads that spin on a word until "
                      "somebody writes and reports 'every unfinished thread parked' (deadlock) or an exhausted step budget (livelock); at quiescence TLC checks on the dump "
